@@ -9,10 +9,12 @@
                    which every ProdSequence is replaced by its generated productions
                    written as plain productions (hence NOT flattened).
                    observation: (1 code) a template constructor raised, else
-                     (0 PRODS CLEAN FLAT)
+                     (0 PRODS CLEAN FLAT VALID)
                    PRODS = generated productions of every template symbol
                    CLEAN = the root after the default cleanup of [raw]   (res)
                    FLAT  = [raw2] flattened by the model                  (res; = raw)
+                   VALID = every subtree of [raw]/[raw2] named by a template symbol is a
+                           derivation tree of that template's generated productions (= 1)
    Encodings:  tree  (0 name value) token | (1 name) empty | (2 name (children)) inner
                      | (3 name (children)) sequence leaf
                value (0) None | (1 str) | (2 (items)) list | (3 ((k v)...)) dict
@@ -85,7 +87,9 @@ Definition run_full (c : case) : sx :=
           let E := grammar_env gi keep start seq_cleaned in
           SL [SZ 0; sx_prods (template_prods gi);
               sx_option (fun t => sx_res sx_te (cleanup E t)) raw;
-              sx_option (fun t => sx_res sx_rt (flatten (seq_syms gi) t)) raw2]
+              sx_option (fun t => sx_res sx_rt (flatten (seq_syms gi) t)) raw2;
+              sx_bool (match raw with Some t => templates_valid false gi t | None => true end &&
+                       match raw2 with Some t => templates_valid true gi t | None => true end)]
       end
   end.
 
